@@ -92,6 +92,8 @@ type Obl struct {
 	Trivial bool
 	DefNames []string
 	DefBodies []*Term
+	Real bool // print integers as reals (field-congruence mode)
+	realPrint bool
 	ExtraAsserts []string
 }
 
@@ -148,6 +150,7 @@ type Exec struct {
 	axiomsOnly bool
 	defTerms   map[string]*Term // bodies of the SMT-defined spec functions (for symbol collection)
 	quiet      int // > 0: obligations are not recorded (dry runs of loop bodies)
+	fieldModulus *Term // field-congruence mode: big.Int Mod by this term is the identity
 }
 
 // frame: one (possibly inlined) function activation.
@@ -197,7 +200,7 @@ func (x *Exec) addObl(kind, name string, st *State, goal *Term, where string) {
 	if n := x.occ[full]; n > 1 {
 		full = fmt.Sprintf("%s@%d", full, n)
 	}
-	o := &Obl{Name: full, Kind: kind, PC: append([]*Term(nil), st.pc...), Goal: goal, Where: where, Func: x.Name}
+	o := &Obl{Name: full, Kind: kind, PC: append([]*Term(nil), st.pc...), Goal: goal, Where: where, Func: x.Name, Real: x.fieldModulus != nil}
 	o.Inputs = x.inputs
 	x.Obls = append(x.Obls, o)
 }
